@@ -5,6 +5,7 @@
 typedef uintptr_t key_type;
 struct ets_array { struct ets_array *next; size_t lg_size; };
 struct ets_slot { key_type key; void *ptr; };
+#define ARR_LG(p) ((p)->lg_size)
 #define LOOP_sizing_1
 #ifdef SLOT
 /* rely: a key slot goes 0 -> k exactly once (by some thread's successful CAS) and never changes afterwards */
@@ -58,12 +59,17 @@ void h_claim(void) {
 #define collaborative_once_references_mask ((uintptr_t)127)     /* max_nfs_size - 1 (checked by spec.py) */
 #define MASK collaborative_once_references_mask
 struct flag { uintptr_t m_state; };
-struct runner { int dummy; };
-static struct flag F; uintptr_t g_mybits; bool me_winner, me_ref, g_threw; uintptr_t g_ref_bits;
+struct runner { int64_t m_ref_count; bool m_is_ready; };
+static struct flag F; uintptr_t g_mybits; bool me_winner, me_ref, me_guard, g_exc, g_throws, was_winner; uintptr_t g_ref_bits; unsigned n_calls, n_done, n_uninit, n_dtor;
+static struct runner SHARED;                     /* the runner of the winner this call helps (named by g_ref_bits) */
 #define SHAPE(v) ((v) == uninitialized || (v) == done || ((v) & ~MASK) != 0)
 #define RUNNER_INIT(r) ((void)0)
 #define RUNNER_BITS(r) g_mybits
 #define FROM_BITS(b) (b)
+#define EXC_PENDING() (g_exc)
+#define EXC_RETHROW() return
+#define RUNNER_DTOR(r) do { __CPROVER_assert(!me_guard && !me_ref && !me_winner, "C19.once: the caller's own runner is destroyed only after the caller gave up every role (winner, state-word reference, lifetime reference)"); n_dtor++; } while (0)
+#define EXC_PROPAGATE() do { if (g_exc) { RUNNER_DTOR(&runner); return; } } while (0)     /* stack unwinding destroys the local runner */
 /* rely: done is absorbing; while I hold a reference the word keeps its runner and a positive count; while I am the winner only the count moves */
 static void interfere(void) {
     uintptr_t o = F.m_state, n = nondet_uintptr_t();
@@ -73,34 +79,45 @@ static void interfere(void) {
     __CPROVER_assume(!me_winner || (n & ~MASK) == g_mybits);
     __CPROVER_assume(me_winner || (n & ~MASK) != g_mybits || n <= done);     /* nobody else installs my runner */
     F.m_state = n;
+    int64_t c = nondet_i64(); __CPROVER_assume(c >= (me_guard ? 1 : 0) && c < 1000000); SHARED.m_ref_count = c;   /* other helpers take and drop lifetime references; mine stays counted */
 }
 #define ATOMIC_LOAD_AT(site, f) ({ interfere(); (f); })
 #define ATOMIC_CAS_AT(site, f, e, d) ({ interfere(); uintptr_t o_ = (f); bool r_ = (o_ == *(e)); if (r_) (f) = (d); else *(e) = o_; GHOST_##site; \
     __CPROVER_assert(SHAPE(f), "guarantee: the state word keeps its shape at " #site); r_; })
-#define ATOMIC_FETCH_SUB_AT(site, f, d) ({ interfere(); __CPROVER_assert(me_ref && ((f) & MASK) >= 1, "guarantee: a reference is dropped only by a thread that holds one, at " #site); (f) -= (d); me_ref = false; (f) + (d); })
-#define GHOST_once_CAS_1 do { if (r_) { __CPROVER_assert(o_ == uninitialized, "C19.once: the winner is elected only from the uninitialized state"); me_winner = true; } } while (0)
+#define ATOMIC_FETCH_SUB_AT(site, f, d) ({ interfere(); __CPROVER_assert(me_ref && ((f) & MASK) >= 1, "guarantee: a reference is dropped only by a thread that holds one, at " #site); \
+    __CPROVER_assert(me_guard, "C19.once: a helper drops its reference in the state word only after its lifetime reference on the runner is in place: the runner cannot be destroyed while the helper still uses it"); \
+    (f) -= (d); me_ref = false; (f) + (d); })
+#define ATOMIC_POSTINC_AT(site, f) ({ interfere(); GHOST_##site; (f)++; })
+#define ATOMIC_POSTDEC_AT(site, f) ({ interfere(); GHOST_##site; (f)--; })
+#define GHOST_guard_ctor_POSTINC_1 do { __CPROVER_assert(me_ref && !me_guard, "C19.once: the lifetime reference is taken while the helper still holds its reference in the state word (the winner waits for those before it completes, so the runner is alive)"); me_guard = true; } while (0)
+#define GHOST_guard_dtor_POSTDEC_1 do { __CPROVER_assert(me_guard, "C19.once: each lifetime reference taken is released exactly once"); me_guard = false; } while (0)
+#define GHOST_once_CAS_1 do { if (r_) { __CPROVER_assert(o_ == uninitialized, "C19.once: the winner is elected only from the uninitialized state"); me_winner = true; was_winner = true; } } while (0)
 #define GHOST_once_CAS_2 do { if (r_) { __CPROVER_assert(o_ > done && (o_ & MASK) != MASK, "C19.once: the helper count never carries into the runner pointer bits, and uninitialized/done are never incremented"); me_ref = true; g_ref_bits = o_ & ~MASK; } } while (0)
-#define GHOST_scs_CAS_1 do { if (r_) { __CPROVER_assert(me_winner && o_ == g_mybits, "C19.once: only the winner completes, and only once every helper reference is gone"); me_winner = false; } } while (0)
+#define GHOST_scs_CAS_1 do { if (r_) { __CPROVER_assert(me_winner && o_ == g_mybits, "C19.once: only the winner completes, and only once every helper reference is gone"); me_winner = false; if (desired == done) n_done++; else n_uninit++; } } while (0)
 #define SPIN_WAIT_UNTIL_EQ(loc, v) do { interfere(); __CPROVER_assume((loc) == (v)); } while (0)
 /* assumption A (stated): a word seen after the runner changed is not already saturated with 127 helpers */
 #define SPIN_WAIT_WHILE_EQ(loc, v) ({ interfere(); __CPROVER_assume((loc) != (v)); __CPROVER_assume(((loc) & ~MASK) == ((v) & ~MASK) || ((loc) & MASK) != MASK || (loc) <= done); (loc); })
-#define LIFETIME_GUARD_ENTER(b) ((void)0)
-#define LIFETIME_GUARD_LEAVE(b) ((void)0)
-static void STUB_assist(uintptr_t bits) { interfere(); }
-#define LOOP_scs_1 __CPROVER_assigns(expected, F.m_state, me_winner) __CPROVER_loop_invariant(me_winner && runner_bits == g_mybits && SHAPE(F.m_state))
-#define ONCE_INV (!me_ref && !me_winner && !g_threw && SHAPE(F.m_state) && (expected != done || F.m_state == done))
-#define LOOP_once_1 __CPROVER_assigns(expected, F.m_state, me_winner, me_ref, g_ref_bits, g_threw) __CPROVER_loop_invariant(ONCE_INV)
-#define LOOP_once_2 __CPROVER_assigns(expected, F.m_state, me_winner, me_ref, g_ref_bits, g_threw) __CPROVER_loop_invariant(ONCE_INV)
+static void lifetime_guard_ctor(struct runner *m_runner); static void lifetime_guard_dtor(struct runner *m_runner);
+#define LIFETIME_GUARD_ENTER(b) do { __CPROVER_assert((b) == g_ref_bits, "C19.once: the runner joined is the one whose reference was taken"); lifetime_guard_ctor(&SHARED); } while (0)
+#define LIFETIME_GUARD_LEAVE(b) lifetime_guard_dtor(&SHARED)
+static void STUB_assist(uintptr_t bits) { __CPROVER_assert(me_guard && !me_ref, "C19.once: a helper joins the winner's arena under its lifetime reference only"); interfere(); }     /* assist: job once.assist; noexcept */
+static void STUB_user_function(void) { __CPROVER_assert(me_winner, "C19.once: the function is run by the elected winner only"); n_calls++; interfere(); if (g_throws) g_exc = true; }
+#define LOOP_scs_1 __CPROVER_assigns(expected, F.m_state, SHARED.m_ref_count, me_winner, n_done, n_uninit) __CPROVER_loop_invariant(me_winner && runner_bits == g_mybits && SHAPE(F.m_state) && n_done == 0 && n_uninit == 0)
+#define ONCE_INV (!me_ref && !me_winner && !me_guard && !g_exc && n_dtor == 0 && SHAPE(F.m_state) && (expected != done || F.m_state == done) && n_calls == 0 && n_done == 0 && n_uninit == 0 && !was_winner)
+#define ONCE_ASSIGNS expected, F.m_state, SHARED.m_ref_count, me_winner, was_winner, me_ref, me_guard, g_ref_bits, g_exc, n_calls, n_done, n_uninit, n_dtor
+#define LOOP_once_1 __CPROVER_assigns(ONCE_ASSIGNS) __CPROVER_loop_invariant(ONCE_INV)
+#define LOOP_once_2 __CPROVER_assigns(ONCE_ASSIGNS) __CPROVER_loop_invariant(ONCE_INV)
 static void flag_set_completion_state(struct flag *self, uintptr_t runner_bits, uintptr_t desired);
-/* contract of run_once + the two lambdas: the functor either completes (completion state done) or throws (state reset to uninitialized, exception leaves the call) */
+static void once_winner_body(struct flag *self);
+/* run_once (job once.run_once) runs the task body - the lambda sliced out of do_collaborative_call_once - exactly once and passes its exception on */
 static void STUB_run_once(struct flag *self, struct runner *r) {
-    OBLIGATION(me_winner, "C19.once: the functor is run by the elected winner only");
+    OBLIGATION(me_winner, "C19.once: run_once is entered by the elected winner only");
     interfere();
-    if (nondet_bool()) flag_set_completion_state(self, g_mybits, done);
-    else { flag_set_completion_state(self, g_mybits, uninitialized); g_threw = true; }
+    once_winner_body(self);
 }
 #include "once.inc"
-static void init(void) { g_mybits = nondet_uintptr_t(); __CPROVER_assume((g_mybits & MASK) == 0 && g_mybits != 0); me_winner = me_ref = g_threw = false; F.m_state = nondet_uintptr_t(); __CPROVER_assume(SHAPE(F.m_state) && (F.m_state & ~MASK) != g_mybits); }
+static void init(void) { g_mybits = nondet_uintptr_t(); __CPROVER_assume((g_mybits & MASK) == 0 && g_mybits != 0); me_winner = me_ref = me_guard = g_exc = was_winner = false; g_throws = nondet_bool(); n_calls = n_done = n_uninit = n_dtor = 0;
+    SHARED.m_ref_count = 0; SHARED.m_is_ready = false; F.m_state = nondet_uintptr_t(); __CPROVER_assume(SHAPE(F.m_state) && (F.m_state & ~MASK) != g_mybits); }
 void h_scs(void) {
     init(); me_winner = true; F.m_state = g_mybits | (nondet_uintptr_t() & MASK);
     uintptr_t desired = nondet_bool() ? done : uninitialized;
@@ -112,8 +129,618 @@ void h_once(void) {
     init();
     flag_do_collaborative_call_once(&F);
     interfere();
-    OBLIGATION(g_threw || F.m_state == done, "C19.once: a call returns normally only after the function has completed successfully (state done), however it raced with winners that threw");
-    OBLIGATION(!me_ref && !me_winner, "C19.once: no helper reference and no winner role is left behind");
+    OBLIGATION(g_exc || F.m_state == done, "C19.once: a call returns normally only after the function has completed successfully (state done), however it raced with winners that threw");
+    OBLIGATION(!me_ref && !me_winner && !me_guard && n_dtor == 1, "C19.once: no helper reference, no lifetime reference and no winner role is left behind, and the caller's runner is destroyed once");
+    OBLIGATION(n_calls == (was_winner ? 1u : 0u), "C19.once: the function is run exactly once by the call that won the election and never by a call that did not");
+    if (g_exc) OBLIGATION(was_winner && n_uninit == 1 && n_done == 0, "C19.once: when the function throws, the exception leaves through the winner's call only, after the flag was put back to the not-called state exactly once (a later or concurrent call retries); the flag is not marked done");
+    else OBLIGATION(n_uninit == 0 && n_done == (was_winner ? 1u : 0u), "C19.once: a winner whose function returned marks the flag done exactly once and never resets it");
+    VACUITY_END();
+}
+#endif
+
+#ifdef LOOKUP
+/* ---- ets_base::table_lookup as a whole (+ allocate / deallocate), for ONE thread (key g_k, hash g_h) running one call among any number of other threads.
+   Shared state and rely (what the other threads, which run this same function under other keys, may do between any two of this thread's atomic steps):
+     * a slot's key goes 0 -> k' exactly once, by the CAS of the thread whose key k' is; this thread's key is written by nobody else;
+     * my_root only ever moves to a strictly larger table that is linked (transitively) in front of the previous root; tables are never unlinked or changed below the root;
+       my_count only grows.
+   Tables are therefore identified by their lg_size: the pointer TABP(l) == l << 6 names THE table of 2^l slots that some OTHER thread pushes at some time; its `next` link is any
+   smaller level or NULL that does not skip the table holding this thread's key (links are immutable once a table is published; each is read at most once per walk); MYP names
+   the array this call allocates (fields MY_next / MY_lg).  The fields of `array` are reached through the accessors ARR_NEXT / ARR_LG (extraction rewrites `x->next`, `x->lg_size`).
+   Slots are not stored: array::at is an oracle that hands out one scratch slot whose content is any content compatible with the rely and with the facts about THIS thread's key
+   (below); the sliced slot::empty/match/claim work on it.
+   Entry fact (the inductive invariant of a thread, re-established by the obligations at the claim): either the thread has no element and its key is in no table (me_lvl == 0), or
+   its key sits in the table of level me_lvl at index me_idx with the element pointer &OLD_ELEM, that table is the NEWEST table holding the key, it is reachable from the root (every
+   table above it links down through it), and every slot from the key's home index start(h) up to me_idx is occupied (so that a probe reaches the key before it meets an empty slot).
+   Older tables may hold stale copies of the key; they carry the same element.
+   Facts about all slots are stated for ONE arbitrary slot (g_jt, g_j).  Termination of the probe / retry loops is not claimed. ---- */
+typedef uintptr_t key_type;
+struct ets_array { struct ets_array *next; size_t lg_size; };
+struct ets_slot { key_type key; void *ptr; };
+struct ets_base { struct ets_array *my_root; size_t my_count; };
+#define NLV 64
+#define TABP(l) ((struct ets_array *)((uintptr_t)(l) << 6))
+#define MYP TABP(NLV)
+#define IS_TAB(p) ((((uintptr_t)(p)) & 63) == 0 && ((uintptr_t)(p) >> 6) >= 2 && ((uintptr_t)(p) >> 6) < NLV)
+static struct ets_base B;
+static char OLD_ELEM, NEW_ELEM;
+static struct ets_array *MY_next, *scratch_next; static size_t MY_lg, scratch_lg;
+key_type g_k; size_t g_h, me_lvl, me_idx, me_rel, my_c, arr_bytes, claim_idx, cur_idx, g_j;
+bool g_exists, g_exc, g_fail_array, g_fail_init, arr_zeroed, gj_seen;
+unsigned created, me_incs, my_claims;
+int my_arr;                                      /* 0: none, 1: allocated and private, 2: published as root, 3: freed */
+struct ets_array *claim_tab, *cur_tab, *g_jt; static struct ets_slot SL; void *sl_ptr0;
+#define IMP(a, b) (!(a) || (b))
+#define EXC_PROPAGATE(...) do { if (g_exc) return __VA_ARGS__; } while (0)
+#define LVL(p) ((p) == MYP ? MY_lg : (size_t)((uintptr_t)(p) >> 6))
+#define IN_CHAIN(p) (IS_TAB(p) || ((p) == MYP && my_arr == 2))
+#define ROOTLVL() (B.my_root == NULL ? (size_t)0 : LVL(B.my_root))
+#define ROOT_OK ((B.my_root == NULL || IN_CHAIN(B.my_root)) && IMP(me_lvl != 0, B.my_root != NULL && LVL(B.my_root) >= me_lvl))
+static size_t *arr_lg(struct ets_array *p) {
+    __CPROVER_assert(IS_TAB(p) || (p == MYP && my_arr != 0), "C19.lookup: only tables of the chain and the array this call allocated are dereferenced");
+    if (p == MYP) return &MY_lg;
+    scratch_lg = (size_t)((uintptr_t)p >> 6); return &scratch_lg;
+}
+static struct ets_array **arr_next(struct ets_array *p) {
+    __CPROVER_assert(IS_TAB(p) || (p == MYP && my_arr != 0), "C19.lookup: only tables of the chain and the array this call allocated are dereferenced");
+    if (p == MYP) return &MY_next;
+    size_t l = (size_t)((uintptr_t)p >> 6), n = nondet_size_t();
+    __CPROVER_assume(n < l && n != 1 && (me_lvl == 0 || l <= me_lvl || n >= me_lvl));        /* links go strictly down and do not skip the table that holds this thread's key */
+    scratch_next = n ? TABP(n) : NULL; return &scratch_next;
+}
+#define ARR_LG(p) (*arr_lg((struct ets_array *)(p)))
+#define ARR_NEXT(p) (*arr_next((struct ets_array *)(p)))
+#define LOOP_sizing_1
+static void interfere_slot(void) { if (SL.key == 0 && nondet_bool()) { key_type x = nondet_uintptr_t(); __CPROVER_assume(x != 0 && x != g_k); SL.key = x; } }
+static void interfere_root(void) { if (nondet_bool()) { size_t l = nondet_size_t(); __CPROVER_assume(l >= 2 && l < NLV && l > ROOTLVL()); B.my_root = TABP(l); } }
+static void interfere_count(void) { size_t n = nondet_size_t(); __CPROVER_assume(n >= B.my_count && n < ((size_t)1 << 48)); B.my_count = n; }
+static void note_nonempty(void) { if (cur_tab == g_jt && cur_idx == g_j) gj_seen = true; }
+static void ghost_claimed(key_type d);
+static void ghost_publish(struct ets_array *old, struct ets_array *a);
+#define ATOMIC_LOAD_AT(site, f) LOAD_##site(f)
+#define LOAD_empty_LOAD_1(f) ({ interfere_slot(); key_type v_ = (f); if (v_ != 0) note_nonempty(); v_; })
+#define LOAD_match_LOAD_1(f) ({ interfere_slot(); (f); })
+#define LOAD_ROOT(f) ({ interfere_root(); (f); })
+#define LOAD_lookup_LOAD_1(f) LOAD_ROOT(f)
+#define LOAD_lookup_LOAD_2(f) LOAD_ROOT(f)
+#define LOAD_lookup_LOAD_3(f) LOAD_ROOT(f)
+#define LOAD_lookup_LOAD_4(f) LOAD_ROOT(f)
+#define LOAD_lookup_LOAD_5(f) LOAD_ROOT(f)
+#define ATOMIC_CAS_AT(site, f, e, d) CAS_##site(f, e, d)
+#define CAS_claim_CAS_1(f, e, d) ({ interfere_slot(); key_type o_ = (f); bool r_ = (o_ == *(e)); if (r_) { (f) = (d); ghost_claimed(d); } else { *(e) = o_; note_nonempty(); } r_; })
+#define CAS_lookup_CAS_1(f, e, d) ({ interfere_root(); struct ets_array *o_ = (f); bool r_ = (o_ == *(e)); if (r_) { ghost_publish(o_, (d)); (f) = (d); } else *(e) = o_; r_; })
+#define ATOMIC_PREINC_AT(site, f) ({ interfere_count(); me_incs++; my_c = ++(f); my_c; })
+#include "ets.inc"
+/* array::start(h) is used through its contract (job ets.probe_index: a value below size() for every hash; a pure function of the table and the hash): the home index of this thread's
+   hash in table t is HOME(t) - one arbitrary value for the table that holds the key, one for the table of the arbitrary slot g_j, one for all others, cut to the table's size.
+   ASZ / DIST are side-effect-free spellings for loop invariants; STUB_at checks on every probe that ASZ agrees with the sliced array::size / mask. */
+size_t g_home_me, g_home_j, g_home_o;
+#define ASZ(t) ((size_t)1 << LVL(t))
+#define HOME(t) (((t) == g_jt ? g_home_j : ((t) != MYP && me_lvl != 0 && LVL(t) == me_lvl) ? g_home_me : g_home_o) & (ASZ(t) - 1))
+#define DIST(t, x) (((x) - HOME(t)) & (ASZ(t) - 1))
+static size_t STUB_start(struct ets_array *t, size_t h) {
+    OBLIGATION(t != NULL && (IS_TAB(t) || (t == MYP && my_arr == 2)), "C19.lookup: only tables of the chain are probed");
+    OBLIGATION(h == g_h, "C19.lookup: a probe starts at the home index of the calling thread's hash");
+    return HOME(t);
+}
+static void slot_release(void) {
+    OBLIGATION(SL.ptr == sl_ptr0 || (SL.key == g_k && my_claims == 1 && cur_tab == claim_tab && cur_idx == claim_idx),
+               "C19.lookup: an element pointer is stored only into the slot this call has just claimed: no two threads share a slot");
+}
+static struct ets_slot *STUB_at(struct ets_array *t, size_t i) {
+    OBLIGATION(t != NULL && IN_CHAIN(t), "C19.lookup: only tables of the chain are probed");
+    OBLIGATION(i < array_size(t), "C19.lookup: every probe index lies inside the table");
+    __CPROVER_assert(array_size(t) == ASZ(t) && array_mask(t) == ASZ(t) - 1, "spec: the invariants' spelling of size and mask agrees with the sliced functions");
+    slot_release();
+    cur_tab = t; cur_idx = i;
+    key_type kk = nondet_uintptr_t(); void *pp = nondet_ptr();
+    if (my_claims != 0 && t == claim_tab && i == claim_idx) { kk = g_k; pp = SL.ptr; }                 /* the slot claimed earlier in this call */
+    else if (me_lvl != 0 && t != MYP && LVL(t) == me_lvl) {                                             /* the newest table holding the key */
+        size_t rel = DIST(t, i);
+        if (rel == me_rel) { kk = g_k; pp = &OLD_ELEM; }                                                /* i.e. i == me_idx */
+        else { __CPROVER_assume(kk != g_k); if (rel < me_rel) __CPROVER_assume(kk != 0); }
+    } else if (me_lvl == 0 || t == MYP || LVL(t) > me_lvl) __CPROVER_assume(kk != g_k);               /* newer tables do not hold it */
+    else if (kk == g_k) pp = &OLD_ELEM;                                                                   /* stale copies in older tables carry the same element */
+    SL.key = kk; SL.ptr = pp; sl_ptr0 = pp;
+    return &SL;
+}
+static void ghost_claimed(key_type d) {
+    OBLIGATION(d == g_k && my_claims == 0, "C19.lookup: a call claims at most one slot, under the calling thread's key");
+    OBLIGATION(me_lvl == 0 || LVL(cur_tab) > me_lvl, "C19.lookup: the key is put only into a table strictly newer than the newest table that holds it: at most one slot per table carries a thread's key");
+    OBLIGATION(!(cur_tab == g_jt && g_j < ASZ(cur_tab) && DIST(cur_tab, g_j) < DIST(cur_tab, cur_idx)) || gj_seen,
+               "C19.lookup: every slot between the key's home index and the slot claimed was seen occupied (arbitrary slot g_j): every later search reaches the key before it meets an empty slot and returns the same element");
+    OBLIGATION(me_incs == 0 || my_c <= ASZ(cur_tab) / 2, "C19.lookup: a new key goes into a table of at least twice its count: no table is ever more than half full, so concurrent first accesses always find an empty slot");
+    my_claims++; claim_tab = cur_tab; claim_idx = cur_idx;
+}
+static void ghost_publish(struct ets_array *old, struct ets_array *a) {
+    OBLIGATION(a == MYP && my_arr == 1, "C19.lookup: only the array this call allocated (not freed, not yet published) is published as root");
+    OBLIGATION(MY_next == old, "C19.lookup: the new root is linked in front of exactly the root it replaces: no table, and so no thread's element, drops out of the chain");
+    OBLIGATION(old == NULL || MY_lg > LVL(old), "C19.lookup: a new root is strictly larger than the root it replaces (the order every thread's 'equal or bigger array' test relies on)");
+    OBLIGATION(arr_zeroed && MY_lg >= 2 && MY_lg < NLV && arr_bytes == sizeof(struct ets_array) + ((size_t)1 << MY_lg) * sizeof(struct ets_slot),
+               "C19.lookup: a published table carries its size, was allocated with room for the header and 2^lg_size slots, and all its slots are empty");
+    my_arr = 2;
+}
+static key_type STUB_current_key(void) { return g_k; }
+static size_t STUB_hash(key_type k) { __CPROVER_assert(k == g_k, "C19.lookup: the hash is taken of the thread's key"); return g_h; }
+static void *STUB_create_local(struct ets_base *self) {
+    OBLIGATION(me_lvl == 0, "C19.lookup: an element is created only for a thread that has none: a thread that has one finds it again (exists == true on every call after the first)");
+    __CPROVER_assume(me_lvl == 0);               /* (checked just above) */
+    OBLIGATION(created == 0, "C19.lookup: one initialiser call per first access");
+    if (g_fail_init) { g_exc = true; return NULL; }
+    created++; return &NEW_ELEM;
+}
+static void *STUB_create_array(struct ets_base *self, size_t bytes) {
+    OBLIGATION(my_arr == 0, "C19.lookup: at most one array is allocated per call");
+    if (g_fail_array) { g_exc = true; return NULL; }
+    my_arr = 1; arr_bytes = bytes; arr_zeroed = false; MY_next = (struct ets_array *)nondet_ptr(); MY_lg = nondet_size_t();
+    return MYP;
+}
+static void STUB_memset(void *p, int c, size_t n) {
+    OBLIGATION(my_arr == 1 && p == (void *)(MYP + 1) && c == 0 && n == arr_bytes - sizeof(struct ets_array), "C19.lookup: the whole slot area of a new array is cleared before the array can be published");
+    arr_zeroed = true;
+}
+static void STUB_free_array(struct ets_base *self, void *p, size_t bytes) {
+    OBLIGATION(p == (void *)MYP && my_arr == 1, "C19.lookup: only an array this call allocated and did not publish is freed, and only once");
+    OBLIGATION(bytes == arr_bytes, "C19.lookup: an array is freed with the byte size it was allocated with");
+    my_arr = 3;
+}
+#define LK_ASSIGNS_SLOT SL, cur_tab, cur_idx, sl_ptr0, gj_seen, scratch_lg, scratch_next
+#define LOOP_lookup_1 __CPROVER_assigns(r, found, *exists, B.my_root, LK_ASSIGNS_SLOT) \
+    __CPROVER_loop_invariant((r == NULL || IS_TAB(r)) && ROOT_OK && SL.ptr == sl_ptr0 && IMP(me_lvl != 0, r != NULL && LVL(r) >= me_lvl))
+#define LOOP_lookup_2 __CPROVER_assigns(i, found, *exists, B.my_root, LK_ASSIGNS_SLOT) \
+    __CPROVER_loop_invariant(ROOT_OK && SL.ptr == sl_ptr0 && i < ASZ(r) && IMP(me_lvl != 0 && LVL(r) == me_lvl, DIST(r, i) <= me_rel))
+#define S0 (r ? LVL(r) : (size_t)2)
+#define LOOP_lookup_3 __CPROVER_assigns(s) __CPROVER_loop_invariant(s >= S0 && s <= 62 && (s == S0 || c > ((size_t)1 << (s - 2)))) __CPROVER_decreases(64 - s)
+#define LOOP_lookup_4 __CPROVER_assigns(r, B.my_root, MY_next, my_arr, scratch_lg, scratch_next) \
+    __CPROVER_loop_invariant(my_arr == 1 && a == MYP && MY_lg == s && arr_zeroed && (r == NULL || (IS_TAB(r) && LVL(r) < s && B.my_root != NULL && LVL(B.my_root) >= LVL(r))) && ROOT_OK)
+#define LOOP_lookup_5 __CPROVER_assigns(i, LK_ASSIGNS_SLOT, my_claims, claim_tab, claim_idx) \
+    __CPROVER_loop_invariant(i < ASZ(ir) && SL.ptr == sl_ptr0 && my_claims == 0 && IMP(ir == g_jt && g_j < ASZ(ir) && DIST(ir, g_j) < DIST(ir, i), gj_seen))
+#include "lookup.inc"
+size_t IN_me_lvl, IN_root_lvl;
+static void lk_init(bool returning) {
+    g_k = nondet_uintptr_t(); __CPROVER_assume(g_k != 0); g_h = nondet_size_t(); g_home_me = nondet_size_t(); g_home_j = nondet_size_t(); g_home_o = nondet_size_t();
+    me_lvl = IN_me_lvl = returning ? nondet_size_t() : 0; __CPROVER_assume(!returning || (me_lvl >= 2 && me_lvl < NLV));
+    size_t rl = IN_root_lvl = nondet_size_t(); __CPROVER_assume(rl == 0 ? me_lvl == 0 : (rl >= 2 && rl < NLV && rl >= me_lvl));
+    B.my_root = rl ? TABP(rl) : NULL; B.my_count = nondet_size_t(); __CPROVER_assume(B.my_count < ((size_t)1 << 48));
+    g_exists = nondet_bool(); g_exc = g_fail_array = g_fail_init = arr_zeroed = gj_seen = false; created = me_incs = my_claims = 0; my_arr = 0; my_c = arr_bytes = claim_idx = cur_idx = 0;
+    claim_tab = cur_tab = NULL; SL.key = 0; SL.ptr = sl_ptr0 = NULL; MY_next = scratch_next = NULL; MY_lg = scratch_lg = 0;
+    size_t jl = nondet_size_t(); g_jt = (jl >= 2 && jl < NLV) ? TABP(jl) : MYP; g_j = nondet_size_t();
+    me_rel = nondet_size_t(); __CPROVER_assume(me_lvl == 0 || me_rel < ((size_t)1 << me_lvl));      /* the key's distance from its home index; its index is me_idx */
+    me_idx = me_lvl ? ((HOME(TABP(me_lvl)) + me_rel) & (((size_t)1 << me_lvl) - 1)) : 0;
+}
+static void lk_post(void *ret) {
+    slot_release();
+    OBLIGATION(my_arr == 0 || my_arr == 2 || my_arr == 3, "C19.lookup: an array allocated for growth is either published as root or freed when the root race is lost - never leaked");
+    if (my_claims == 1) {
+        OBLIGATION(cur_tab == claim_tab && cur_idx == claim_idx && SL.key == g_k && SL.ptr == ret, "C19.lookup: the slot claimed carries the thread's key and the element that is returned");
+    }
+}
+#ifdef CASE_RETURNING
+void h_lookup_returning(void) {
+    lk_init(true);
+    void *ret = ets_table_lookup(&B, &g_exists);
+    lk_post(ret);
+    OBLIGATION(!g_exc && ret == (void *)&OLD_ELEM && g_exists, "C19.lookup: a thread that has an element gets the same element (same address) on every later call, with exists == true, however the table has grown meanwhile");
+    OBLIGATION(created == 0 && me_incs == 0, "C19.lookup: no second element is created and my_count is not incremented again for a key that is already counted");
+    OBLIGATION(my_claims <= 1, "C19.lookup: at most one slot is claimed (re-insertion into the newest table)");
+    VACUITY_END();
+}
+#endif
+#ifdef CASE_FIRST
+void h_lookup_first(void) {
+    lk_init(false);
+#ifdef FAULT_ARRAY
+    g_fail_array = true;
+#endif
+#ifdef FAULT_INIT
+    g_fail_init = true;
+#endif
+    void *ret = ets_table_lookup(&B, &g_exists);
+    lk_post(ret);
+    if (!g_exc) {
+        OBLIGATION(!g_exists && created == 1 && ret == (void *)&NEW_ELEM, "C19.lookup: a first access creates exactly one element by one initialiser call, reports exists == false and returns that element");
+        OBLIGATION(me_incs == 1, "C19.lookup: my_count is incremented exactly once per key");
+        OBLIGATION(my_claims == 1, "C19.lookup: a first access returns only after it claimed one slot for the thread's key");
+    } else {
+        OBLIGATION(my_claims == 0, "C19.fault: a first access that leaves by exception has claimed no slot");
+        OBLIGATION(created == 0, "C19.fault: a first access that leaves by exception leaves no element behind in the container: the thread's next access creates its element, and combine / iteration visit one element per thread");
+    }
+#if defined(FAULT_ARRAY) || defined(FAULT_INIT)
+    __CPROVER_assume(g_exc);                     /* the vacuity twin must reach the end on the exception path */
+#endif
+    VACUITY_END();
+}
+#endif
+#endif
+
+#ifdef ELEMS
+/* ---- the element side of enumerable_thread_specific / combinable: create_local, the iterator, combine / combine_each, and the TLS front end + local().
+   The internal concurrent_vector my_locals is a stub (C11 proves its grow_by / indexing): n elements EL[0..n), grow_by(1) appends one default-constructed element. ---- */
+typedef long T;
+struct ets_element { T my_space; bool is_built; };
+struct cvec { size_t n; };
+struct ets_iter { struct cvec *my_container; size_t my_index; T *my_value; };
+struct ets { struct cvec my_locals; };
+#define SPACE_BEGIN(x) (&(x))
+#define EXC_PROPAGATE(...) do { if (g_exc) return __VA_ARGS__; } while (0)
+#define NMAX ((size_t)1 << 12)
+#define INIT_VALUE ((T)7)
+static struct ets_element *EL; static struct ets E;
+size_t g_k, g_n0; bool g_exc, g_fail_init, g_indicator; unsigned constructs, grows; long visits; T *g_constructed_at;
+static void ets_element_ctor(struct ets_element *self);
+static struct ets_element *STUB_grow_by(struct cvec *v, size_t delta) {
+    OBLIGATION(v == &E.my_locals && delta == 1, "C19.elems: the container grows by one element per first access");
+    size_t i = v->n; v->n = i + 1; grows++;
+    ets_element_ctor(&EL[i]);                    /* concurrent_vector default-constructs the new element */
+    return &EL[i];
+}
+static void STUB_construct(struct ets *self, T *where) {
+    OBLIGATION(constructs == 0, "C19.elems: one initialiser call");
+    if (g_fail_init) { g_exc = true; return; }
+    *where = INIT_VALUE; constructs++; g_constructed_at = where;
+}
+static size_t STUB_cvec_size(struct cvec *v) { return v->n; }
+static struct ets_element *STUB_cvec_at(struct cvec *v, size_t i) {
+    OBLIGATION(v == &E.my_locals && i < v->n, "C19.combine: iteration reads only elements of the container (index below size())");
+    /* precondition of combine / iteration, supplied for the element being read: it was constructed; its value is the indicator of 'this is element g_k' */
+    __CPROVER_assume(EL[i].is_built && (!g_indicator || EL[i].my_space == (i == g_k ? 1 : 0)));
+    return &EL[i];
+}
+static void STUB_f_each(T v) { visits += v; }
+static T STUB_f_combine(T a, T b) { return a + b; }
+/* TLS front end */
+static char OLD_ELEM, NEW_ELEM; void *g_tls; bool me_has; unsigned super_calls, created;
+static void *STUB_get_tls(struct ets *self) { return g_tls; }
+static void *STUB_super_table_lookup(struct ets *self, bool *exists) {      /* contract of ets_base::table_lookup as decided by the jobs ets.lookup.* */
+    super_calls++;
+    if (me_has) { *exists = true; return &OLD_ELEM; }
+    *exists = false; created++; me_has = true; return &NEW_ELEM;
+}
+static void STUB_set_tls(struct ets *self, void *v) { g_tls = v; }
+#define LOOP_each_1 __CPROVER_assigns(ci, visits) __CPROVER_loop_invariant(ci.my_container == &self->my_locals && ci.my_value == NULL && ci.my_index <= self->my_locals.n && visits == (g_k < ci.my_index ? 1 : 0)) __CPROVER_decreases(self->my_locals.n - ci.my_index)
+#define LOOP_combine_1 __CPROVER_assigns(ci, my_result) __CPROVER_loop_invariant(ci.my_container == &self->my_locals && ci.my_index < self->my_locals.n && my_result == (g_k <= ci.my_index ? 1 : 0)) __CPROVER_decreases(self->my_locals.n - ci.my_index)
+#include "elems.inc"
+size_t IN_n, IN_k;
+static void el_init(void) {
+    size_t n = IN_n = nondet_size_t(); __CPROVER_assume(n < NMAX);
+    EL = malloc((n + 2) * sizeof(struct ets_element)); __CPROVER_assume(EL != NULL);
+    E.my_locals.n = g_n0 = n; g_k = IN_k = nondet_size_t(); g_exc = g_fail_init = g_indicator = false; constructs = grows = 0; visits = 0; g_constructed_at = NULL;
+}
+#ifdef CREATE
+void h_create_local(void) {
+    el_init();
+    __CPROVER_assume(g_k >= g_n0 || EL[g_k].is_built);          /* every element already in the container is constructed (arbitrary element g_k) */
+#ifdef FAULT_INIT
+    g_fail_init = true;
+#endif
+    void *ret = ets_create_local(&E);
+    if (!g_exc) {
+        OBLIGATION(E.my_locals.n == g_n0 + 1 && grows == 1 && constructs == 1, "C19.elems: a first access appends exactly one element and runs the initialiser exactly once");
+        OBLIGATION(ret == (void *)&EL[g_n0].my_space && g_constructed_at == &EL[g_n0].my_space, "C19.elems: the element handed to the thread is the appended one, and it is the one the initialiser constructed");
+    }
+    OBLIGATION(g_k >= E.my_locals.n || EL[g_k].is_built, "C19.elems: every element of the container is constructed (arbitrary element g_k): combine / iteration never visit storage no initialiser completed on - also after a first access that left by exception");
+#ifdef FAULT_INIT
+    __CPROVER_assume(g_exc);
+#endif
+    VACUITY_END();
+}
+#endif
+#ifdef COMBINE
+void h_combine_each(void) {
+    el_init(); g_indicator = true;
+    ets_combine_each(&E);
+    OBLIGATION(visits == (g_k < g_n0 ? 1 : 0), "C19.combine: combine_each passes every element of the container to the functor exactly once (arbitrary element g_k), and nothing else");
+    VACUITY_END();
+}
+void h_combine(void) {
+    el_init(); g_indicator = true;
+    T r = ets_combine(&E);
+    if (g_n0 == 0) OBLIGATION(r == INIT_VALUE && constructs == 1, "C19.combine: combine on an empty container returns one freshly initialised value");
+    else OBLIGATION(r == (g_k < g_n0 ? 1 : 0) && constructs == 0, "C19.combine: every element contributes to the result of combine exactly once (arbitrary element g_k; the functor adds indicator values), and nothing else does");
+    VACUITY_END();
+}
+#endif
+#ifdef TLS
+void h_tls(void) {
+    bool had = me_has = nondet_bool(); super_calls = created = 0;
+    g_tls = nondet_bool() ? NULL : (void *)&OLD_ELEM; __CPROVER_assume(g_tls == NULL || had);     /* invariant: the TLS slot of (thread, instance) is empty or holds the thread's element */
+    bool ex = nondet_bool(); T *r;
+    if (nondet_bool()) r = ets_local_exists(&E, &ex); else { r = ets_local(&E); ex = had; }
+    OBLIGATION((void *)r == (had ? (void *)&OLD_ELEM : (void *)&NEW_ELEM) && ex == had, "C19.tls: local() returns the thread's own element (the one the table holds, created now if there was none) and exists tells whether it existed - with or without the TLS shortcut");
+    OBLIGATION(created == (had ? 0u : 1u) && super_calls <= 1, "C19.tls: the element is created exactly when the thread had none");
+    OBLIGATION(g_tls == NULL || g_tls == (void *)r, "C19.tls: what the TLS shortcut holds afterwards is the element the table holds for this thread (shortcut and table agree)");
+    VACUITY_END();
+}
+#endif
+#endif
+
+#ifdef CLEAR
+/* ---- ets_base::table_clear (not concurrent: destructor / clear()): every array of the chain is freed exactly once, with its own byte size; root and count are reset.
+   The chain has n arrays in list order; array i is the pointer (i+1)<<6, its lg_size any value (read through the accessor, remembered for the free). ---- */
+typedef uintptr_t key_type;
+struct ets_array { struct ets_array *next; size_t lg_size; };
+struct ets_slot { key_type key; void *ptr; };
+struct ets_base { struct ets_array *my_root; size_t my_count; };
+#define CP(i) ((struct ets_array *)(((uintptr_t)(i) + 1) << 6))
+#define IS_CP(p) ((((uintptr_t)(p)) & 63) == 0 && (uintptr_t)(p) >= 64 && (((uintptr_t)(p)) >> 6) - 1 < g_n)
+#define POSOF(p) ((p) == NULL ? g_n : (size_t)((((uintptr_t)(p)) >> 6) - 1))
+static struct ets_base B; size_t g_n, g_t, frees; unsigned freed_t; static struct ets_array *scratch_next, *lg_tab; static size_t scratch_lg;
+static size_t *arr_lg(struct ets_array *p) {
+    __CPROVER_assert(IS_CP(p), "C19.clear: only arrays of the chain are dereferenced");
+    size_t l = nondet_size_t(); __CPROVER_assume(l >= 2 && l <= 47); scratch_lg = l; lg_tab = p; return &scratch_lg;
+}
+static struct ets_array **arr_next(struct ets_array *p) {
+    __CPROVER_assert(IS_CP(p), "C19.clear: only arrays of the chain are dereferenced");
+    __CPROVER_assert(POSOF(p) >= frees, "C19.clear: an array is not read after it was freed");
+    scratch_next = POSOF(p) + 1 < g_n ? CP(POSOF(p) + 1) : NULL; return &scratch_next;
+}
+#define ARR_LG(p) (*arr_lg((struct ets_array *)(p)))
+#define ARR_NEXT(p) (*arr_next((struct ets_array *)(p)))
+#define ATOMIC_LOAD(f) (f)
+#define ATOMIC_STORE(f, v) ((f) = (v))
+static void STUB_free_array(struct ets_base *self, void *p, size_t bytes) {
+    OBLIGATION(IS_CP((struct ets_array *)p) && POSOF((struct ets_array *)p) == frees, "C19.clear: the arrays are freed in list order, each once");
+    OBLIGATION(self->my_root != (struct ets_array *)p, "C19.clear: an array is unlinked from the root before it is freed");
+    OBLIGATION(lg_tab == (struct ets_array *)p && bytes == sizeof(struct ets_array) + ((size_t)1 << scratch_lg) * sizeof(struct ets_slot), "C19.clear: an array is freed with the byte size that goes with its own lg_size");
+    if (POSOF((struct ets_array *)p) == g_t) freed_t++;
+    frees++;
+}
+#define LOOP_clear_1 __CPROVER_assigns(r, B.my_root, frees, freed_t, scratch_next, scratch_lg, lg_tab) \
+    __CPROVER_loop_invariant((B.my_root == NULL || IS_CP(B.my_root)) && frees == POSOF(B.my_root) && freed_t == (g_t < frees ? 1u : 0u)) __CPROVER_decreases(g_n - POSOF(B.my_root))
+#include "clear.inc"
+size_t IN_n;
+void h_clear(void) {
+    g_n = IN_n = nondet_size_t(); __CPROVER_assume(g_n <= 62); g_t = nondet_size_t(); frees = 0; freed_t = 0; lg_tab = NULL; scratch_next = NULL; scratch_lg = 0;
+    B.my_root = g_n ? CP(0) : NULL; B.my_count = nondet_size_t();
+    ets_table_clear(&B);
+    OBLIGATION(B.my_root == NULL && B.my_count == 0, "C19.clear: afterwards the table is empty (no root, count 0): the next local() of every thread creates a fresh element");
+    OBLIGATION(frees == g_n && freed_t == (g_t < g_n ? 1u : 0u), "C19.clear: every array of the chain is freed exactly once (arbitrary array g_t)");
+    VACUITY_END();
+}
+#endif
+
+#ifdef RUNNER
+/* ---- collaborative_once_runner: run_once (winner), assist (helper), destructor; collaborative_call_stack_task::execute / cancel / finalize.
+   Shared words of ONE runner R: m_is_ready (false -> true once, by the winner inside run_once), m_ref_count (helpers' lifetime references).  Ghost: storage_built (the union member
+   holding the task_arena and the wait_context has been constructed), wait_refs (reference count of the wait_context, 1 after construction), in_arena / isolated (nesting markers).
+   The scheduler is a stub: execute_and_wait runs the task's execute(); if that leaves by exception it cancels the task's context and dispatches the same task again through cancel()
+   (task_dispatcher's exception loop, C01/C03), then rethrows; it returns only once the wait_context has no references. ---- */
+struct runner { int64_t m_ref_count; bool m_is_ready; };
+struct cst { struct runner *owner; };
+static struct runner R; bool g_exc, g_throws, storage_built, storage_destroyed, in_arena, isolated, ready_seen, completed; int wait_refs; unsigned n_body, n_release, n_wait;
+#define EXC_PROPAGATE(...) do { if (g_exc) return __VA_ARGS__; } while (0)
+#ifdef RDTOR
+/* rely for the destructor: it runs after the owner gave up the winner role (job once.do_call_once: RUNNER_DTOR), so the state word no longer names this runner and no helper can take
+   a new lifetime reference (they are taken only under a state-word reference): m_ref_count only falls; m_is_ready is stable and equals storage_built (run_once). */
+static void interfere_r(void) { int64_t c = nondet_i64(); __CPROVER_assume(c >= 0 && c <= R.m_ref_count); R.m_ref_count = c; }
+#elif defined(RRUN)
+/* rely for run_once: only the winner (this thread) touches m_is_ready and the storage; helpers come and go */
+static void interfere_r(void) { int64_t c = nondet_i64(); __CPROVER_assume(c >= 0 && c < 1000000); R.m_ref_count = c; }
+#else
+/* rely for assist: the helper holds a lifetime reference, so R is alive; m_is_ready rises once, and only after the storage was constructed (run_once: guarantee at run_once_STORE_1) */
+static void interfere_r(void) { if (!R.m_is_ready && nondet_bool()) { R.m_is_ready = true; storage_built = true; } }
+#endif
+#define ATOMIC_LOAD_AT(site, f) ({ interfere_r(); (f); })
+#define ATOMIC_STORE_AT(site, f, v) do { interfere_r(); GHOST_##site(v); (f) = (v); } while (0)
+#define GHOST_run_once_STORE_1(v) __CPROVER_assert((v) == true && storage_built && in_arena && isolated, "C19.once: the ready flag is raised only after the arena and the wait_context were constructed and the winner has entered the arena in isolation (a helper that sees the flag may use them; helpers cannot take the winner's slot)")
+#define SPIN_WAIT_WHILE_EQ(loc, v) do { interfere_r(); __CPROVER_assume((loc) != (v)); ready_seen = true; } while (0)
+#define SPIN_WAIT_UNTIL_EQ(loc, v) do { interfere_r(); __CPROVER_assume((loc) == (v)); } while (0)
+#define STORAGE_CTOR(r) do { __CPROVER_assert(!storage_built && !R.m_is_ready, "C19.once: the arena / wait_context storage is constructed once, by the winner, before anyone can see the ready flag"); storage_built = true; wait_refs = 1; } while (0)
+#define STORAGE_DTOR(r) do { interfere_r(); __CPROVER_assert(storage_built && !storage_destroyed, "C19.once: the arena / wait_context storage is destroyed only if it was constructed, and once"); \
+    __CPROVER_assert(R.m_ref_count == 0, "C19.once: the arena and the wait_context are destroyed only when no helper holds a lifetime reference on the runner (and none can be taken any more)"); storage_destroyed = true; } while (0)
+#define ARENA_EXECUTE_BEGIN(r) do { __CPROVER_assert(storage_built && !in_arena, "C19.once: the arena is entered only after it was constructed (winner) or after the ready flag was seen (helper)"); in_arena = true; } while (0)
+#define ARENA_EXECUTE_END(r) do { in_arena = false; } while (0)
+#define ISOLATED_BEGIN(r) do { __CPROVER_assert(in_arena && !isolated, "C19.once: the isolated region lies inside the runner's arena"); isolated = true; } while (0)
+#define ISOLATED_END(r) do { isolated = false; } while (0)
+#define CTX_DECL_BOUND_CONCURRENT_WAIT(c) ((void)0)
+#define CTX_DECL(c) ((void)0)
+#define TASK_DECL(t, r) struct cst t; t.owner = (r)
+#define WAIT_CTX_RELEASE(t) do { __CPROVER_assert(wait_refs > 0, "C19.once: the wait_context is not released more often than it was reserved"); wait_refs--; n_release++; } while (0)
+static void *STUB_call_m_func(struct cst *t) {          /* the task body: the lambda of do_collaborative_call_once (job once.do_call_once: once_winner_body); it may throw */
+    __CPROVER_assert(in_arena && isolated && R.m_is_ready, "C19.once: the function runs inside the runner's arena, in isolation, after the ready flag let helpers in");
+    n_body++; if (g_throws) g_exc = true; return NULL;
+}
+static void *cst_execute(struct cst *self); static void *cst_cancel(struct cst *self);
+static void STUB_execute_and_wait(struct runner *r, struct cst *t) {
+    cst_execute(t);
+    if (g_exc) { g_exc = false; cst_cancel(t); g_exc = true; }      /* the dispatcher's exception loop: context cancelled, the same task dispatched again through cancel(); rethrown after the wait */
+    __CPROVER_assert(wait_refs == 0, "C19.once: the wait_context is released exactly once whether the function returns or throws: neither the winner nor a helper waits for ever");
+}
+static void STUB_wait(struct runner *r) {
+    __CPROVER_assert(ready_seen && storage_built && in_arena && isolated, "C19.once: a helper waits on the winner's wait_context only after it saw the ready flag, inside the runner's arena and in isolation");
+    n_wait++;
+}
+#include "runner.inc"
+static void r_init(void) { R.m_ref_count = 0; R.m_is_ready = false; g_exc = storage_built = storage_destroyed = in_arena = isolated = ready_seen = completed = false; g_throws = nondet_bool(); wait_refs = 0; n_body = n_release = n_wait = 0; }
+#ifdef RRUN
+void h_run_once(void) {
+    r_init();
+    runner_run_once(&R);
+    OBLIGATION(n_body == 1, "C19.once: run_once runs the function exactly once");
+    OBLIGATION(g_exc == g_throws, "C19.once: run_once leaves by exception exactly if the function threw (the exception reaches the winner's caller)");
+    OBLIGATION(storage_built && R.m_is_ready && wait_refs == 0 && n_release == 1, "C19.once: afterwards the storage exists, the ready flag is up and the wait_context has been released once (helpers stop waiting)");
+    VACUITY_END();
+}
+#elif !defined(RDTOR)
+void h_assist(void) {
+    r_init(); R.m_ref_count = 1;                 /* the caller's lifetime reference */
+    if (nondet_bool()) { R.m_is_ready = true; storage_built = true; wait_refs = nondet_bool() ? 1 : 0; }
+    runner_assist(&R);
+    OBLIGATION(!g_exc && n_wait == 1 && !in_arena && !isolated, "C19.once: assist waits once for the winner's function and raises no exception");
+    VACUITY_END();
+}
+#else
+void h_runner_dtor(void) {
+    r_init(); R.m_ref_count = nondet_i64(); __CPROVER_assume(R.m_ref_count >= 0 && R.m_ref_count < 1000000);
+    R.m_is_ready = storage_built = nondet_bool();             /* run_once: the flag is up exactly if the storage was constructed */
+    __CPROVER_assume(storage_built || R.m_ref_count == 0);    /* a runner that never won was never published: nobody holds a reference */
+    runner_dtor(&R);
+    interfere_r();
+    OBLIGATION(R.m_ref_count == 0, "C19.once: the runner's memory is given up only when no helper holds a lifetime reference");
+    OBLIGATION(storage_destroyed == storage_built, "C19.once: the arena and the wait_context are destroyed exactly if they were constructed");
+    VACUITY_END();
+}
+#endif
+#endif
+
+#ifdef LAYOUT
+/* ---- ets_base::allocate / array::at / deallocate on REAL memory: the facts the slot oracle of the LOOKUP section takes for granted - at(k) for k < size() lies inside the
+   allocation, different indices are different (non-overlapping) slots behind the header, a fresh array has only empty slots, deallocate passes the allocation's size ---- */
+typedef uintptr_t key_type;
+struct ets_array { struct ets_array *next; size_t lg_size; };
+struct ets_slot { key_type key; void *ptr; };
+struct ets_base { struct ets_array *my_root; size_t my_count; };
+#define ARR_LG(p) ((p)->lg_size)
+#define ARR_NEXT(p) ((p)->next)
+#define LOOP_sizing_1
+#define EXC_PROPAGATE(...) ((void)0)
+#define ATOMIC_LOAD_AT(site, f) (f)
+#define ATOMIC_CAS_AT(site, f, e, d) ((f) == *(e) ? ((f) = (d), true) : (*(e) = (f), false))
+static size_t g_bytes; static void *g_block; unsigned n_free;
+static void *STUB_create_array(struct ets_base *self, size_t bytes) { g_bytes = bytes; g_block = malloc(bytes); __CPROVER_assume(g_block != NULL); return g_block; }
+static void STUB_free_array(struct ets_base *self, void *p, size_t bytes) {
+    OBLIGATION(p == g_block && bytes == g_bytes && n_free == 0, "C19.layout: deallocate hands back the block allocate obtained, with the same byte size, once");
+    n_free++; free(p);
+}
+#define STUB_memset memset
+#include "ets.inc"
+#define LOOKUP_INC_LAYOUT_ONLY
+#include "layout.inc"
+size_t IN_lg, IN_k;
+void h_layout(void) {
+    struct ets_base b; size_t lg = IN_lg = nondet_size_t(); __CPROVER_assume(lg >= 2 && lg <= LAYOUT_MAX_LG); n_free = 0;
+    struct ets_array *a = ets_allocate(&b, lg);
+    size_t k = IN_k = nondet_size_t(), j = nondet_size_t(); __CPROVER_assume(k < array_size(a) && j < array_size(a));
+    OBLIGATION(a->lg_size == lg && g_bytes == sizeof(struct ets_array) + array_size(a) * sizeof(struct ets_slot), "C19.layout: the array records its size and is allocated with room for the header and size() slots");
+    struct ets_slot *s = array_at(a, k), *u = array_at(a, j);
+    OBLIGATION((char *)s == (char *)a + sizeof(struct ets_array) + k * sizeof(struct ets_slot), "C19.layout: slot k lies behind the header at offset k * sizeof(slot): different indices are different, non-overlapping slots");
+    OBLIGATION(slot_empty(s) && s->ptr == NULL, "C19.layout: every slot of a fresh array is empty (arbitrary slot k)");
+    s->key = 1; s->ptr = a;                                    /* (CBMC's pointer checks: the whole slot lies inside the allocation) */
+    OBLIGATION(j == k || slot_empty(u), "C19.layout: writing one slot leaves every other slot untouched");
+    ets_deallocate(&b, a);
+    OBLIGATION(n_free == 1, "C19.layout: deallocate frees the block");
+    VACUITY_END();
+}
+#endif
+
+#ifdef COPY
+/* ---- ets_base::table_elementwise_copy (copy / move construction and assignment; documented as not concurrent): every thread's element of the source is copied exactly once,
+   however many tables of the source chain hold (stale copies of) its key, and every slot of every source table is looked at once.
+   Source chain: n_src tables in list order, table t is the pointer (t+1)<<6 with lg_size SRC_LG[t]; its slots come from an oracle (any content; all copies of the arbitrary key g_k carry
+   the element &SRC_ELEM - the invariant the jobs ets.lookup.* maintain).  Destination: the array allocated by the sliced allocate (pointer DP, fields MY_lg / MY_next); its slots come from
+   an oracle that knows where g_k was inserted (dst_has, dst_idx) and that the slots from g_k's home index up to there are occupied; other slots have any content without g_k.
+   Facts over all slots are stated for one arbitrary source slot (g_wt, g_wi) and one arbitrary destination slot g_j.  Termination of the probe loop is not claimed. ---- */
+typedef uintptr_t key_type;
+struct ets_array { struct ets_array *next; size_t lg_size; };
+struct ets_slot { key_type key; void *ptr; };
+struct ets_base { struct ets_array *my_root; size_t my_count; };
+#define IMP(a, b) (!(a) || (b))
+#define EXC_PROPAGATE(...) do { if (g_exc) return __VA_ARGS__; } while (0)
+#define NSRC 62
+#define SP(t) ((struct ets_array *)(((uintptr_t)(t) + 1) << 6))
+#define IS_SP(p) ((((uintptr_t)(p)) & 63) == 0 && (uintptr_t)(p) >= 64 && (((uintptr_t)(p)) >> 6) - 1 < n_src)
+#define TPOS(p) ((p) == NULL ? n_src : (size_t)((((uintptr_t)(p)) >> 6) - 1))
+#define DP ((struct ets_array *)((uintptr_t)1 << 20))
+static struct ets_base SELF, OTHER; static size_t SRC_LG[NSRC + 1]; size_t n_src;
+static struct ets_array *MY_next, *scratch_next; static size_t MY_lg, scratch_lg, arr_bytes; int my_arr; bool arr_zeroed, g_exc;
+static char SRC_ELEM, DST_ELEM;
+key_type g_k; size_t g_h, g_home_k, g_wt, g_wi, g_j, dst_idx, cur_j; bool dst_has, gj_seen, seen_k, dst_out; unsigned adds_k, visited_w;
+static struct ets_slot S1, S2;
+static size_t *arr_lg(struct ets_array *p) {
+    __CPROVER_assert(IS_SP(p) || (p == DP && my_arr != 0), "C19.copy: only tables of the source chain and the new table are dereferenced");
+    if (p == DP) return &MY_lg;
+    scratch_lg = SRC_LG[TPOS(p)]; return &scratch_lg;
+}
+static struct ets_array **arr_next(struct ets_array *p) {
+    __CPROVER_assert(IS_SP(p) || (p == DP && my_arr != 0), "C19.copy: only tables of the source chain and the new table are dereferenced");
+    if (p == DP) return &MY_next;
+    scratch_next = TPOS(p) + 1 < n_src ? SP(TPOS(p) + 1) : NULL; return &scratch_next;
+}
+#define ARR_LG(p) (*arr_lg((struct ets_array *)(p)))
+#define ARR_NEXT(p) (*arr_next((struct ets_array *)(p)))
+#define LOOP_sizing_1
+#define ATOMIC_LOAD_AT(site, f) (f)
+#define ATOMIC_CAS_AT(site, f, e, d) ((f) == *(e) ? ((f) = (d), true) : (*(e) = (f), false))
+#define ATOMIC_LOAD(f) (f)
+static void ghost_key_store(key_type v);
+#define ATOMIC_STORE(f, v) do { __typeof__(f) v_ = (v); if ((void *)&(f) == (void *)&S2.key) ghost_key_store((key_type)(uintptr_t)v_); (f) = v_; } while (0)
+#include "ets.inc"
+#define DLG MY_lg
+#define DSZ ((size_t)1 << DLG)
+#define DDIST(x) (((x) - (g_home_k & (DSZ - 1))) & (DSZ - 1))      /* distance of destination index x from the home index of g_k's hash */
+#define SSZ(t) ((size_t)1 << SRC_LG[t])
+#define BEFORE(t, i) (g_wt < (t) || (g_wt == (t) && g_wi < (i)))    /* the arbitrary source slot comes before position (t, i) in the scan order */
+static size_t STUB_hash(key_type k) { __CPROVER_assert(k == S1.key && k != 0, "C19.copy: the hash is taken of the key being copied"); return k == g_k ? g_h : nondet_size_t(); }
+static size_t STUB_start(struct ets_array *t, size_t h) {
+    __CPROVER_assert(t == DP && my_arr == 1, "C19.copy: keys are inserted into the new table only");
+    return (h == g_h ? g_home_k : nondet_size_t()) & (DSZ - 1);      /* contract of array::start (job ets.probe_index): a pure function of the hash, below size() */
+}
+static struct ets_slot *STUB_at_src(struct ets_array *t, size_t i) {
+    OBLIGATION(IS_SP(t) && i < SSZ(TPOS(t)), "C19.copy: every source index lies inside its table");
+    if (TPOS(t) == g_wt && i == g_wi) visited_w++;
+    S1.key = nondet_uintptr_t(); S1.ptr = nondet_ptr();
+    if (S1.key == g_k) { S1.ptr = &SRC_ELEM; seen_k = true; } else __CPROVER_assume(S1.ptr != (void *)&SRC_ELEM);    /* elements belong to one key each */
+    dst_out = false;
+    return &S1;
+}
+static struct ets_slot *STUB_at_dst(struct ets_array *t, size_t j) {
+    OBLIGATION(t == DP && my_arr == 1 && j < DSZ, "C19.copy: every destination index lies inside the new table");
+    __CPROVER_assert(array_size(t) == DSZ && array_mask(t) == DSZ - 1, "spec: the invariants' spelling of size and mask agrees with the sliced functions");
+    OBLIGATION(!(S1.key == g_k && dst_has) || DDIST(j) <= DDIST(dst_idx), "C19.copy: a probe for a key that the new table already holds stops at that key's slot: the key (a stale copy in an older source table) is not inserted a second time");
+    cur_j = j; dst_out = true;
+    key_type kk = nondet_uintptr_t(); void *pp = nondet_ptr();
+    if (dst_has && j == dst_idx) { kk = g_k; pp = &DST_ELEM; }
+    else { __CPROVER_assume(kk != g_k && pp != (void *)&DST_ELEM); if (dst_has && DDIST(j) < DDIST(dst_idx)) __CPROVER_assume(kk != 0); }
+    if (j == g_j && gj_seen) __CPROVER_assume(kk != 0);               /* a slot seen occupied stays occupied */
+    if (j == g_j && kk != 0) gj_seen = true;
+    S2.key = kk; S2.ptr = pp;
+    return &S2;
+}
+static void *STUB_add_element(struct ets_base *self, void *src) {
+    __CPROVER_assert(self == &SELF && src == S1.ptr, "C19.copy: the new element is made from the element of the source slot being copied");
+    if (src == (void *)&SRC_ELEM) { adds_k++; return &DST_ELEM; }
+    void *p = nondet_ptr(); __CPROVER_assume(p != (void *)&DST_ELEM); return p;
+}
+static void ghost_key_store(key_type v) {
+    OBLIGATION(dst_out && S2.key == 0, "C19.copy: a key is stored only into an empty slot of the new table");
+    OBLIGATION(v == S1.key, "C19.copy: the key stored is the key of the source slot being copied");
+    if (v == g_k) {
+        OBLIGATION(!dst_has, "C19.copy: a key is inserted into the new table only if the table does not hold it yet: one slot, one element per thread");
+        OBLIGATION(S2.ptr == (void *)&DST_ELEM && adds_k == 1, "C19.copy: the slot gets the element that was copied from this key's element, and that copy was made once");
+        OBLIGATION(!(g_j < DSZ && DDIST(g_j) < DDIST(cur_j)) || gj_seen, "C19.copy: every slot between the key's home index and the slot used is occupied (arbitrary slot g_j): later probes for the same key, and table_lookup afterwards, find it");
+        dst_has = true; dst_idx = cur_j;
+    } else OBLIGATION(S2.ptr != (void *)&DST_ELEM, "C19.copy: no other key's slot gets this key's element");
+    if (cur_j == g_j) gj_seen = true;
+}
+static void *STUB_create_array(struct ets_base *self, size_t bytes) { __CPROVER_assert(my_arr == 0, "C19.copy: one table is allocated"); my_arr = 1; arr_bytes = bytes; arr_zeroed = false; MY_next = (struct ets_array *)nondet_ptr(); MY_lg = nondet_size_t(); return DP; }
+static void STUB_memset(void *p, int c, size_t n) { __CPROVER_assert(p == (void *)(DP + 1) && c == 0 && n == arr_bytes - sizeof(struct ets_array), "C19.copy: the new table starts with all slots empty"); arr_zeroed = true; }
+static void STUB_free_array(struct ets_base *self, void *p, size_t bytes) { __CPROVER_assert(0, "C19.copy: nothing is freed"); }
+#define COPY_STATE0 (my_arr == 1 && arr_zeroed && MY_lg == SRC_LG[0] && adds_k == (dst_has ? 1u : 0u) && IMP(dst_has, dst_idx < DSZ && seen_k))
+#define COPY_STATE (COPY_STATE0 && IMP(seen_k, dst_has))
+#define LOOP_copy_1 __CPROVER_assigns(r, S1, S2, scratch_lg, scratch_next, cur_j, dst_out, dst_has, dst_idx, gj_seen, seen_k, adds_k, visited_w) \
+    __CPROVER_loop_invariant((r == NULL || IS_SP(r)) && COPY_STATE && visited_w == (g_wt < TPOS(r) ? 1u : 0u)) __CPROVER_decreases(n_src - TPOS(r))
+#define LOOP_copy_2 __CPROVER_assigns(i, S1, S2, scratch_lg, scratch_next, cur_j, dst_out, dst_has, dst_idx, gj_seen, seen_k, adds_k, visited_w) \
+    __CPROVER_loop_invariant(i <= SSZ(TPOS(r)) && COPY_STATE && visited_w == (BEFORE(TPOS(r), i) ? 1u : 0u)) __CPROVER_decreases(SSZ(TPOS(r)) - i)
+#define LOOP_copy_3 __CPROVER_assigns(j, S2, scratch_lg, cur_j, dst_out, dst_has, dst_idx, gj_seen, adds_k) \
+    __CPROVER_loop_invariant(j < DSZ && COPY_STATE0 && IMP(seen_k && S1.key != g_k, dst_has) && IMP(S1.key == g_k && dst_has, DDIST(j) <= DDIST(dst_idx)) && IMP(S1.key == g_k && !dst_has && g_j < DSZ && DDIST(g_j) < DDIST(j), gj_seen))
+#include "layout.inc"
+#include "copy.inc"
+size_t IN_n;
+void h_copy(void) {
+    n_src = IN_n = nondet_size_t(); __CPROVER_assume(n_src <= NSRC);
+    for (size_t t = 0; t <= NSRC; ++t) { size_t l = nondet_size_t(); __CPROVER_assume(l >= 2 && l <= 40); SRC_LG[t] = l; }
+    g_k = nondet_uintptr_t(); __CPROVER_assume(g_k != 0); g_h = nondet_size_t(); g_home_k = nondet_size_t(); g_j = nondet_size_t();
+    g_wt = nondet_size_t(); g_wi = nondet_size_t(); __CPROVER_assume(g_wt < n_src && g_wi < SSZ(g_wt));
+    SELF.my_root = NULL; SELF.my_count = 0; OTHER.my_root = n_src ? SP(0) : NULL; OTHER.my_count = nondet_size_t();
+    my_arr = 0; arr_zeroed = g_exc = dst_has = gj_seen = seen_k = dst_out = false; adds_k = visited_w = 0; dst_idx = cur_j = 0; scratch_next = NULL; scratch_lg = 0; MY_lg = 0; MY_next = NULL; S1.key = S2.key = 0; S1.ptr = S2.ptr = NULL;
+    ets_table_elementwise_copy(&SELF, &OTHER);
+    if (n_src == 0) OBLIGATION(SELF.my_root == NULL && my_arr == 0 && adds_k == 0, "C19.copy: copying an empty container leaves the copy empty");
+    else {
+        OBLIGATION(SELF.my_root == DP && MY_next == NULL && MY_lg == SRC_LG[0] && arr_zeroed, "C19.copy: the copy gets ONE table, of the size of the source's newest table, initially empty, as its root");
+        OBLIGATION(SELF.my_count == OTHER.my_count, "C19.copy: the copy counts as many keys as the source");
+        OBLIGATION(visited_w == 1, "C19.copy: every slot of every table of the source chain is looked at exactly once (arbitrary slot)");
+        OBLIGATION(adds_k == (seen_k ? 1u : 0u) && IMP(dst_has, seen_k) && IMP(seen_k, dst_has), "C19.copy: a thread's element is copied exactly once - however many tables of the source hold its key - and the copy sits in exactly one slot under that key (arbitrary key g_k)");
+    }
     VACUITY_END();
 }
 #endif
